@@ -116,6 +116,34 @@ def task(args):
         rec("ProductScheme3D", "weights-sum-to-measure", sum(p3.weights), ONE)
         for e in monomials(3, deg3):
             rec("ProductScheme3D", "exact/x^{}y^{}z^{}".format(*e), p3.integrate(mono_fun(e), ZERO, ONE, ZERO, ONE, ZERO, ONE), exact(e))
+        # node positions of the mirrors, for every order in which the mirrors are requested from one scheme object
+        # (the lazily cached mirrors must not alias each other)
+        for order in itertools.permutations(("mirror_x", "mirror_y", "mirror_z")):
+            q3 = Q.ProductScheme3D(base)
+            got = {mn: getattr(q3, mn)() for mn in order}
+            for mn in order:      # ask again: must return the same rule
+                got[mn + "#2"] = getattr(q3, mn)()
+            for mn, sch in got.items():
+                cidx = "xyz".index(mn[7])
+                dev = ZERO
+                for c in range(3):
+                    want = (ONE - q3.points[c]) if c == cidx else q3.points[c]
+                    dev += sum(abs(a - b) for a, b in zip(sch.points[c], want))
+                dev += sum(abs(a - b) for a, b in zip(sch.weights, q3.weights))
+                rec("QuadScheme3D." + mn[:8], "reflects-only-its-coordinate/request-order={}/{}".format("".join(o[7] for o in order), mn), dev, ZERO)
+        for order in itertools.permutations(("mirror_x", "mirror_y")):
+            q2 = Q.ProductScheme2D(base)
+            got = {mn: getattr(q2, mn)() for mn in order}
+            for mn in order:
+                got[mn + "#2"] = getattr(q2, mn)()
+            for mn, sch in got.items():
+                cidx = "xy".index(mn[7])
+                dev = ZERO
+                for c in range(2):
+                    want = (ONE - q2.points[c]) if c == cidx else q2.points[c]
+                    dev += sum(abs(a - b) for a, b in zip(sch.points[c], want))
+                dev += sum(abs(a - b) for a, b in zip(sch.weights, q2.weights))
+                rec("QuadScheme2D." + mn[:8], "reflects-only-its-coordinate/request-order={}/{}".format("".join(o[7] for o in order), mn), dev, ZERO)
         for mname in ("mirror_x", "mirror_y", "mirror_z"):
             sch = getattr(p3, mname)()
             e = (min(deg3, 1), min(deg3, 1), 0) if deg3 >= 2 else (0, 0, 0)
